@@ -178,10 +178,20 @@ def extract(notes: list[str]) -> dict:
                     for b in loops[0].body for x in ast.walk(b))
     # ---- _append_random_suffix
     for n in ast.walk(suf):
-        if isinstance(n, ast.Assign) and len(n.targets) == 1 and isinstance(n.targets[0], ast.Name) and n.targets[0].id == "to_take":
-            res["toTake"] = _show(n.value, suf)
         if isinstance(n, ast.Return) and isinstance(n.value, ast.JoinedStr):
             res["suffixFormat"] = _show(n.value, suf)
+            # the bound of the slice inside the f-string, resolved to the expression it was assigned
+            bounds = [x.slice.upper for x in ast.walk(n.value) if isinstance(x, ast.Subscript) and isinstance(x.slice, ast.Slice)
+                      and x.slice.lower is None and x.slice.upper is not None]
+            if len(bounds) == 1:
+                b = bounds[0]
+                if isinstance(b, ast.Name):
+                    defs = [m.value for m in ast.walk(suf) if isinstance(m, ast.Assign) and len(m.targets) == 1
+                            and isinstance(m.targets[0], ast.Name) and m.targets[0].id == b.id]
+                    if len(defs) == 1:
+                        res["toTake"] = _show(defs[0], suf)
+                else:
+                    res["toTake"] = _show(b, suf)
         if isinstance(n, ast.Call) and isinstance(n.func, ast.Attribute) and n.func.attr == "choices":
             ks = [k for k in n.keywords if k.arg == "k"]
             res["choicesK"] = _show(ks[0].value, suf) if ks else MISSING
